@@ -5,7 +5,7 @@ META = {
     "engine": "Pos",
     "technique": "TLA+ reference LineCol (lib/Utf8) + model of the lexer's line/column counters model-checked by TLC over all sequences of position-shifting pieces; the same piece sequences followed by error fragments (programs and templates) plus seeded corpus mutations are built by the real code and every *BuildError's path/offsets/line/column is judged by a TLC Trace spec",
     "level": "model_checking",
-    "level_text": "TLC checks that the lexer's counting rule (newline -> next line, every character start byte -> next column) agrees with the reference LineCol on every sequence of <=3 (quick) / <=4 (thorough) pieces drawn from: ASCII, LF, CRLF, tab, 2- and 3-byte characters, multi-line block comment, line comment, multi-line raw string, string, template comment. Each sequence is then used as the prefix of 5 program and 5 template error fragments and built for real, and seeded mutations of the repository corpus are added; for every *BuildError: the path is a file of the build, 0 <= start <= len, end within the file, and (line, column) is the line/column of a byte offset in [start, end].",
+    "level_text": "TLC checks that the lexer's counting rule (newline -> next line, every character start byte -> next column) agrees with the reference LineCol on every sequence of <=3 (quick) / <=4 (thorough) pieces drawn from: ASCII, LF, CRLF, tab, 2- and 3-byte characters, multi-line block comment, line comment, multi-line raw string, string, template comment. Each sequence is then used as the prefix of 5 program and 5 template error fragments and built for real; a second TLC-exported space puts 1-2 position-shifting pieces (rune, string and raw-string literals with multi-byte characters, a comment) inside the expression before the token in error; and seeded mutations of the repository corpus are added; for every *BuildError: the path is a file of the build, 0 <= start <= len, end within the file, and (line, column) is the line/column of a byte offset in [start, end].",
     "level_note": "Reading of 'line and column are those of the start offset' chosen so that intended behaviour passes: for expressions the code reports the operator's line/column with the whole expression's byte range, so the judge accepts any offset within [start,end] (documented in spec/pos/Pos.tla); the strict reading is reported as drift. Multi-file builds (errors in imported/extended files) are covered only through C18/C04 corpora, not here. Corpus files with 7+ digit literals are skipped (huge arrays make the compiler allocate gigabytes: a C04 finding).",
     "design_ref": "7/C21",
 }
